@@ -64,7 +64,8 @@ class C14(Prop):
             "beyond ASCII {a,1,.,-,U+0663,U+FF17,e-acute,E-acute,NBSP,CR}, against a Python transcription of the documented languages (oracle) and the Lean model and Lean "
             "specification (correspondence), plus random longer strings over a wider alphabet; round trip: generated (short, version, type"
             "[, base product]) with dashed/undashed shorts, numeric/free-form versions, every known release type, targeted cases derived "
-            "from the type table; create: one-part corruptions, None/empty base-product parts; parse: token-built identifiers (correspondence). "
+            "from the type table; create: EVERY string up to length 5/6 (8-symbol alphabet) and 3/4 (Unicode-class alphabet) in each of the six argument "
+            "positions with the others fixed valid (raises iff the real predicate of that position refuses), one-part corruptions, None/empty base-product parts; parse: token-built identifiers (correspondence). "
             "non-trivial = distinct cases (a block of the exhaustive enumeration counts once; its size is in distribution.pred_strings)")
     assumptions = ["CPython's re engine on the three patterns = the list-of-successes matcher of Model/Regex.lean (compared on every enumerated string)",
                    "str.split/rsplit/count/endswith/slicing = the definitions of Model/Str.lean (compared through create/parse on every generated case)"]
@@ -148,6 +149,21 @@ class C14(Prop):
         umax = 6 if tier == "thorough" else 4
         for a in UNI_ALPHABET:
             out.append({"op": "pred_block", "args": {"alphabet": UNI_ALPHABET, "prefix": a, "n": umax - 1}})
+        # (1c) create_release_id over exhaustive blocks: each of the six argument positions filled with EVERY string up to a
+        # small length over both alphabets, the other arguments fixed valid (with a `ga` and a dashed non-`ga` context);
+        # oracle: create raises (ValueError) iff the real predicate of that position refuses the string
+        cn, un = (6, 4) if tier == "thorough" else (5, 3)
+        ctxs = [{"short": "f", "version": "23", "type": "ga", "bp_short": "rhel", "bp_version": "7.1", "bp_type": "updates"},
+                {"short": "my-prod", "version": "Rawhide", "type": "updates-testing", "bp_short": "b", "bp_version": "x", "bp_type": "ga"}]
+        for pos in self.POSITIONS:
+            for ci, ctx in enumerate(ctxs):
+                if ci == 1 and tier != "thorough" and pos in ("short", "type", "bp_short", "bp_type"):
+                    continue
+                for alpha, n in ((ALPHABET, cn - ci), (UNI_ALPHABET, un)):
+                    out.append({"op": "create_block", "args": dict(ctx, alphabet=alpha, n=n, pos=pos)})
+            if not pos.startswith("bp_"):       # and without a base product at all
+                out.append({"op": "create_block", "args": dict(ctxs[0], bp_short=None, bp_version=None, bp_type=None,
+                                                               alphabet=ALPHABET, n=cn - 1, pos=pos)})
         # (2) round trips
         n_rt = budget * 5 // 10
         out.extend(self.targeted_from_table(types))
@@ -175,6 +191,9 @@ class C14(Prop):
                 s = s[:k] + "\n" + s[k:]
             out.append({"op": "pred", "args": {"which": PREDS[i % 3], "s": s}})
         return out
+
+    POSITIONS = ("short", "version", "type", "bp_short", "bp_version", "bp_type")
+    POS_PRED = {"short": "short", "version": "version", "type": "type", "bp_short": "short", "bp_version": "version", "bp_type": "type"}
 
     SHORT_SEGS = ["f", "fedora", "rhel", "a1", "x", "prod", "my", "z9z", "ga", "fast", "eus", "updates", "testing", "e4s", "b2c3"]
     NUM_VERSIONS = ["1", "23", "7.1", "1.2.3", "0", "10.0.0.1", "007", "2015.12"]
@@ -274,7 +293,9 @@ class C14(Prop):
                 b[0] = rng.choice([None, ""])
             bp = tuple(b)
         elif mode == 6:
-            s, v = s + rng.choice(["\n", ""]), v + rng.choice(["\n", ""])
+            s, v = s + rng.choice(["\n", ""]), v + rng.choice(["\n", "", "@", "-x", "@2"])
+            if rng.random() < 0.3:
+                bp = ("b", rng.choice(["a@", "@", "x-y", "beta@2", "R\n"]), rng.choice(types))
         else:
             pool = bad_short + bad_version
             s, v, t = rng.choice([s, rng.choice(pool)]), rng.choice([v, rng.choice(pool)]), rng.choice([t, rng.choice(pool)])
@@ -310,6 +331,22 @@ class C14(Prop):
             return "".join(chr(48 + (1 if rs(w) else 0) + (2 if rv(w) else 0) + (4 if rt(w) else 0)
                                + (8 if spec_short(w) else 0) + (16 if spec_version(w) else 0))
                            for w in block_words(a["alphabet"], a["prefix"], a["n"]))
+        if op == "create_block":
+            pred = self.real_pred(self.POS_PRED[a["pos"]])
+            codes, bits = [], []
+            for w in block_words(a["alphabet"], "", a["n"]):
+                args = dict(a, **{a["pos"]: w})
+                try:
+                    rid = c.create_release_id(args["short"], args["version"], args["type"], args["bp_short"], args["bp_version"], args["bp_type"])
+                    codes.append("1" if rid == self.format(args) else "X")
+                except ValueError:
+                    codes.append("V")
+                except TypeError:
+                    codes.append("T")
+                except Exception:
+                    codes.append("E")
+                bits.append("1" if pred(w) else "0")
+            return {"codes": "".join(codes), "pred": "".join(bits)}
         if op == "parse":
             return guarded(c.parse_release_id, a["id"])
         cr = guarded(c.create_release_id, a["short"], a["version"], a["type"], a["bp_short"], a["bp_version"], a["bp_type"])
@@ -331,6 +368,8 @@ class C14(Prop):
                     {"op": "c14_pred", "args": {"which": "spec_" + a["which"], "s": a["s"]}}]
         if op == "pred_block":
             return [{"op": "c14_block", "args": a}]
+        if op == "create_block":
+            return [{"op": "c14_create_block", "args": a}]
         if op == "parse":
             return [{"op": "c14_parse", "args": a}]
         if any(not isinstance(a[k], str) for k in ("short", "version", "type")):
@@ -366,6 +405,20 @@ class C14(Prop):
                     if len(dr) >= 12:
                         break
             return {"real": dr, "model": dm}
+        if op == "create_block":
+            rc = real_out["codes"].replace("X", "1")        # the model op does not return the identifier; its format is checked by the oracle
+            if rc == model_out:
+                return None
+            dr, dm = {}, {}
+            mo = model_out if isinstance(model_out, str) else ""
+            if len(mo) != len(rc):
+                dr["count"] = len(rc); dm["count"] = len(mo)
+            for w, x, y in zip(block_words(a["alphabet"], "", a["n"]), rc, mo):
+                if x != y:
+                    dr["%s=%r" % (a["pos"], w)] = x; dm["%s=%r" % (a["pos"], w)] = y
+                    if len(dr) >= 12:
+                        break
+            return {"real": dr, "model": dm}
         if op == "create":
             return None if real_out["create"] == model_out else {"real": real_out["create"], "model": model_out}
         if op == "parse":
@@ -388,6 +441,19 @@ class C14(Prop):
                 for which in PREDS:
                     if (c >> BIT[which] & 1) != (c >> SPEC_BIT[which] & 1):
                         yield which, w, bool(c >> BIT[which] & 1)
+
+    def create_mismatches(self, a, real_out):
+        """words of a create block on which create_release_id does not follow the real predicate of the varied position"""
+        codes, bits = real_out["codes"], real_out["pred"]
+        falsy_ok = a["pos"] == "bp_short"             # `if bp_short:` - the empty string means "no base product"
+        inactive = a["pos"] in ("bp_version", "bp_type") and not a["bp_short"]
+        quick = set(zip(codes, bits))
+        if quick <= {("1", "1"), ("V", "0")} and not falsy_ok and not inactive:
+            return
+        for w, x, b in zip(block_words(a["alphabet"], "", a["n"]), codes, bits):
+            want = "1" if (b == "1" or inactive or (falsy_ok and w == "")) else "V"
+            if x != want:
+                yield {"args": dict(a, **{a["pos"]: w}), "code": x, "want": want}
 
     def oracle(self, case, real_out):
         op, a = case["op"], case["args"]
@@ -414,6 +480,13 @@ class C14(Prop):
             return {"observed": {"unmatched": unmatched, "matched_known": matched, "examples": examples},
                     "required": "each predicate accepts exactly the documented language on every string of the block",
                     "kind": "pred-vs-spec"}
+        if op == "create_block":
+            bad = list(itertools.islice(self.create_mismatches(a, real_out), 20))
+            if not bad:
+                return None
+            return {"observed": {"unmatched": [{"args": {k: x["args"][k] for k in self.POSITIONS}, "observed": x["code"], "required": x["want"]} for x in bad]},
+                    "required": "create_release_id accepts (1) / raises ValueError (V) exactly as the validity predicate of the varied argument decides",
+                    "kind": "create-vs-predicates"}
         if op == "parse":
             return None
         if op == "create":
@@ -479,6 +552,9 @@ class C14(Prop):
             for which in PREDS:
                 n = sum(cnt for ch, cnt in ((ch, real_out.count(ch)) for ch in set(real_out)) if (ord(ch) - 48) >> BIT[which] & 1)
                 dist["accepted_" + which] = dist.get("accepted_" + which, 0) + n
+        elif op == "create_block":
+            dist["create_block_calls"] = dist.get("create_block_calls", 0) + len(real_out["codes"])
+            dist["create_block_accepted"] = dist.get("create_block_accepted", 0) + real_out["codes"].count("1")
         elif op == "pred":
             k = "pred_accept" if real_out.get("ok") else "pred_refuse"
             dist[k] = dist.get(k, 0) + 1
@@ -511,6 +587,11 @@ class C14(Prop):
                     if len(cands) >= 50:
                         break
             return sorted(cands, key=lambda c: len(c["args"]["s"]))
+        if op == "create_block":
+            r = self.real(case)
+            cands = [{"op": "create", "args": {k: x["args"][k] for k in self.POSITIONS}}
+                     for x in itertools.islice(self.create_mismatches(a, r), 50)]
+            return sorted(cands, key=lambda c: len(c["args"][a["pos"]] or ""))
         if op == "pred":
             s = a["s"]
             for i in range(len(s)):
